@@ -279,6 +279,9 @@ func (w *world) close() {
 func (w *world) quiesce() {
 	deadline := time.Now().Add(5 * time.Second)
 	okRuns := 0
+	if w.activity == nil {
+		w.activity = new(atomic.Int64) // worlds built by hand (C16): no capture filter moves it
+	}
 	lastActivity := int64(-1)
 	for okRuns < 2 {
 		// The goroutine snapshot and the queue lengths are not read at one instant: a
